@@ -30,7 +30,7 @@ impl Monitor for C05 {
         "exploration"
     }
     fn num_cases(&self, tier: Tier) -> u64 {
-        tier.pick(1600, 60_000)
+        tier.pick(3_200, 100_000)
     }
     fn num_dev_cases(&self, tier: Tier) -> u64 {
         tier.pick(160, 4_000)
